@@ -167,10 +167,13 @@ def build_cases(tier, wd):
     # escaping matrix (C02 "special characters in text and attributes are escaped so the string parses back"): every
     # sequence of <= 3 character classes {ASCII, 2-, 3-, 4-byte character, each XML special} as token text and as attribute value
     import itertools
-    alphabet = ["a", "é", "α", "∑", "𝐀", "&amp;", "&lt;", "&gt;", "'", "&quot;"]
+    # (the tails 'lt;' '#65;' '#x41;' 'nbsp;' 'amp;' after an escaped ampersand spell text that LOOKS like a reference: the author's
+    #  '&amp;lt;' is the four characters & l t ; and has to come back as such)
+    alphabet = ["a", "é", "α", "∑", "𝐀", "&amp;", "&lt;", "&gt;", "'", "&quot;", "lt;", "#65;", "#x41;", "nbsp;", "amp;"]
     seqs = [p for n in (1, 2, 3) for p in itertools.product(alphabet, repeat=n) if any(len(x) > 1 or x == "'" for x in p)]
     if tier == "quick":
-        seqs = rng.sample(seqs, 260)
+        short = [p for p in seqs if len(p) <= 2]
+        seqs = short + rng.sample([p for p in seqs if len(p) == 3], 200)
     for p_ in seqs:
         txt = "".join(p_)
         attr = txt.replace("'", "&apos;")
@@ -198,8 +201,22 @@ def build_cases(tier, wd):
     runs += [[r3.choice(mergeable) for _ in range(r3.choice([3, 3, 4, 5]))] for _ in range(1500 if tier == "quick" else 20000)]
     for ri, run in enumerate(runs):
         combos = [(f, l, h) for f in followers for l in leaders for h in hosts]
-        for f, l, h in (combos if tier == "thorough" and ri < len(mergeable) ** 2 else r3.sample(combos, 3)):
+        for f, l, h in r3.sample(combos, 24 if tier == "thorough" and ri < len(mergeable) ** 2 else 3):
             cases.append({"mathml": h.format(l + "".join(run) + f), "origin": "sibling-merge-row", "idmode": "none", "spicy": True, "locale": None})
+    # tokens that canonicalization SPLITS into several elements (points under an arc / bar / arrow or after a shape, chemical
+    # formulas, function name glued to its argument, digits glued to letters, 'dx'): new elements come out of one token, so what
+    # happens to the author's id and attributes on that token matters - every id mode, tokens as mi and mtext
+    split_hosts = ["<mover>{T}<mo>¯</mo></mover>", "<mover>{T}<mo>→</mo></mover>", "<mover>{T}<mo>⌢</mo></mover>", "<mo>△</mo>{T}", "<mo>∠</mo>{T}<mo>=</mo><mn>90</mn>",
+                   "<mi>m</mi><mo>∠</mo>{T}", "{T}<mo>+</mo><mn>1</mn>", "<mo>∫</mo><mi>f</mi>{T}", "<msub>{T}<mn>2</mn></msub>", "<mn>3</mn>{T}",
+                   "<mo>▱</mo>{T}<mo>≅</mo><mo>▱</mo>{T}", "<munder>{T}<mo>_</mo></munder>"]
+    split_tokens = ["BC", "AB", "ABC", "PQRS", "NaCl", "CO", "HCl", "sinx", "dx", "xy", "2x", "H2O", "Ab", "AA"]
+    for hi, h in enumerate(split_hosts):
+        for ti, tok in enumerate(split_tokens):
+            for tag in ("mi", "mtext"):
+                attrs = ["", " mathvariant='normal'", " mathcolor='red'"][(hi + ti) % 3]
+                body = h.replace("{T}", f"<{tag}{attrs}>{tok}</{tag}>")
+                for idmode in (("all", "alternate", "duplicates", "none") if tier == "thorough" else ("all", idmodes[(hi + ti) % 4])):
+                    cases.append({"mathml": add_ids(f"<math>{body}</math>", idmode, rng), "origin": "split-token", "idmode": idmode, "spicy": True, "locale": None})
     corpus = mml.corpus()
     if tier == "quick":
         corpus = rng.sample(corpus, 700)
